@@ -53,7 +53,7 @@ type field struct {
 
 // ---- template catalogue ----
 
-const nTemplates = 14
+const nTemplates = 22
 
 func template(k int) shape {
 	s := shape{bs: "FIX.4.4", mt: "D"}
@@ -93,6 +93,30 @@ func template(k int) shape {
 		s.body = []*nd{gr("78", lf("79", kStr), lf("80", kInt)), gr("555", lf("600", kStr), cp(gr("604", lf("605", kStr), lf("606", kStr))))}
 	case 13: // depth 3: group in group in group
 		s.body = []*nd{gr("1", lf("2", kStr), gr("3", lf("4", kStr), gr("5", lf("6", kStr), lf("7", kInt))))}
+	// ---- small-tag templates for the arbitrary-input checks (C11) ----
+	case 14: // flat + group
+		s.bs = "F"
+		s.hdr = []*nd{lf("4", kInt)}
+		s.body = []*nd{lf("5", kStr), gr("6", lf("7", kStr), lf("3", kStr))}
+	case 15: // group in group
+		s.bs = "F"
+		s.body = []*nd{gr("2", lf("3", kStr), gr("4", lf("5", kStr), lf("6", kInt))), lf("7", kStr)}
+	case 16: // component in group, group in component
+		s.bs = "F"
+		s.body = []*nd{gr("2", lf("3", kStr), cp(lf("4", kInt), lf("5", kStr))), cp(gr("6", lf("7", kStr)))}
+	// ---- adversarial tag sets (C18) ----
+	case 17: // tags that extend / truncate the group count tag; free text before, inside and after the group
+		s.hdr = []*nd{lf("34", kInt)}
+		s.body = []*nd{lf("1146", kStr), lf("46", kStr), lf("14", kStr), gr("146", lf("55", kStr), lf("65", kStr)), lf("58", kStr)}
+	case 18: // tags around MsgType / MsgSeqNum / CheckSum
+		s.hdr = []*nd{lf("134", kStr), lf("34", kInt), lf("4", kStr)}
+		s.body = []*nd{lf("135", kStr), lf("5", kStr), lf("110", kStr), lf("0", kStr), lf("58", kStr)}
+	case 19: // tags around the first member of a group
+		s.body = []*nd{lf("25", kStr), gr("146", lf("55", kStr), lf("155", kStr), lf("5", kStr), lf("65", kStr)), lf("255", kStr)}
+	case 20: // nested group whose count tag is a suffix of an outer member's tag
+		s.body = []*nd{gr("146", lf("55", kStr), lf("1711", kStr), gr("711", lf("311", kStr), lf("11", kStr))), lf("58", kStr)}
+	case 21: // group count tag that is a suffix of a preceding plain tag, group absent or present
+		s.body = []*nd{lf("2146", kStr), gr("146", lf("55", kStr)), lf("9146", kStr)}
 	}
 	return s
 }
@@ -197,6 +221,29 @@ func (p *popCtl) take() bool {
 // drawValue draws a symbolic value of kind k and returns its canonical wire text.
 func (p *popCtl) drawValue(k int) (tv, []byte) {
 	v := tv{k: k}
+	if p.route == 3 { // concrete values (used where only the structure matters)
+		c := byte('A' + p.slot%26)
+		switch k {
+		case kStr:
+			v.s = string([]byte{c})
+			return v, []byte{c}
+		case kRaw:
+			v.raw = []byte{c}
+			return v, []byte{c}
+		case kInt:
+			v.i = 1 + p.slot%9
+			return v, []byte(strconv.Itoa(v.i))
+		case kUint:
+			v.u = uint64(1 + p.slot%9)
+			return v, []byte(strconv.FormatUint(v.u, 10))
+		case kBool:
+			v.b = p.slot%2 == 0
+			if v.b {
+				return v, []byte("Y")
+			}
+			return v, []byte("N")
+		}
+	}
 	switch k {
 	case kStr:
 		b := zz.Bytes(p.nextLen())
@@ -315,6 +362,8 @@ func (v tv) ctorValue() fix.Value {
 // setLeaf populates one KeyValue through the selected route and returns the error, if any.
 func (p *popCtl) setLeaf(kv *fix.KeyValue, v tv, text []byte) error {
 	switch p.route {
+	case 3:
+		return kv.Value.Set(v.goValue())
 	case 1:
 		kv.Set(v.ctorValue())
 		return nil
